@@ -7,8 +7,8 @@ from props import fam_sym
 
 MANIFEST = dict(
     technique='Coq proof (phase transport over Z/24 for every group, list and symmetry-consistent phase function) + differential check + sphere-function oracles on gemmi',
-    text='Theorems for every row of the regenerated table, both ASU conventions and every hkl: ensure_asu never fails; the phase it stores after moving a reflection (shift -(h.t) of the ORIGINAL index, negation for Friedel mates) is the true phase of the new index for any phase function obeying F(hR)=F(h)exp(-2 pi i h.t) and Friedel law; original -> (ASU index, ISYM) -> original restores unmerged indices. The index/phase/(+)/(-)-swap bookkeeping model is compared exactly with Mtz::ensure_asu and AsuData::ensure_asu on every row; oracles on gemmi compare F, phase, HL coefficients, F(+)/F(-)/DANO of transformed lists (ensure_asu, AsuData::ensure_asu, expand_to_p1) with structure factors of a point-atom model, check unmerged original<->ASU round trips with M/ISYM flags, and reindexing (d-spacing, absences, centricity, epsilon preserved; undone by the inverse operator).',
-    note='Trusted: Coq kernel + vm_compute; translator; extraction; harness (its point-atom structure-factor oracle in double precision, tolerances 1e-3 relative on amplitudes, 0.05 degree on phases). No axioms. expand_to_p1 coverage, HL rotation and reindexing are decided by the oracles only (no theorem).')
+    text='Theorems for every row of the regenerated table, both ASU conventions and every hkl: ensure_asu never fails; the phase it stores after moving a reflection (shift -(h.t) of the ORIGINAL index, negation for Friedel mates) is the true phase of the new index for any phase function obeying F(hR)=F(h)exp(-2 pi i h.t) and Friedel law; original -> (ASU index, ISYM) -> original restores unmerged indices; expand_to_p1 (for ANY operation list and hkl): the original and its copies are pairwise distinct with no Friedel pair, every image of every operation is present itself or as its mate (whole orbit for every table group), and each copy carries the phase shift of the operation that produced it, hence the true phase of its index. The index/phase/(+)/(-)-swap bookkeeping model is compared exactly with Mtz::ensure_asu, AsuData::ensure_asu and Mtz::expand_to_p1 (order, indices and phase shifts of the appended rows) on every row; oracles on gemmi compare F, phase, HL coefficients, F(+)/F(-)/DANO of transformed lists (ensure_asu, AsuData::ensure_asu, expand_to_p1) with structure factors of a point-atom model, check unmerged original<->ASU round trips with M/ISYM flags, and reindexing (d-spacing, absences, centricity, epsilon preserved; undone by the inverse operator).',
+    note='Trusted: Coq kernel + vm_compute; translator; extraction; harness (its point-atom structure-factor oracle in double precision, tolerances 1e-3 relative on amplitudes, 0.05 degree on phases). No axioms. HL rotation and reindexing are decided by the oracles only (no theorem).')
 
 
 def run(chk):
@@ -33,6 +33,8 @@ def run(chk):
                 if rng.random() < 0.15:
                     hkl[1] = hkl[0]
                 lines.append('move\t%d %d %d %d %d' % (i, tnt, *hkl))
+                if tnt == 0:
+                    lines.append('expand\t%d %d %d %d' % (i, *hkl))
     orows = rows if not quick else sorted(set(rng.sample(rows, 150) + [0, 1, 3, 12, 114, 146, 170, 200, 353, 409, 434, 500, 529, 530, 563]))
     for i in orows:
         seed = rng.randint(1, 10 ** 6)
@@ -63,7 +65,7 @@ def run(chk):
                     replay={'harness': 'h_move', 'line': cmd + '\t' + args})
     for (line, kind, err) in res['crashes']:
         chk.violate('crash', 'h_move %s on %s' % (kind, line), err, replay={'harness': 'h_move', 'line': line})
-    chk.rule = ('move: every row x both conventions x random/special hkl through Mtz::ensure_asu and AsuData::ensure_asu, compared '
+    chk.rule = ('move/expand: every row x both conventions x random/special hkl through Mtz::ensure_asu, AsuData::ensure_asu and Mtz::expand_to_p1, compared '
                 'exactly with the model (new index, phase sign and shift in 1/24 turn, (+)/(-) swap); oracles o_ensure/o_asudata/'
                 'o_expand/o_switch/o_reindex on gemmi with point-atom truth. non-trivial = not skipped/rejected')
     if not proved:
